@@ -406,6 +406,14 @@ theorem C15_drift_missed_presence_lost :
     (requirementsDrifted [{ key := "example.com/n", op := .gt, values := ["2"], minValues := none },
                          { key := "example.com/n", op := .notIn, values := ["5"], minValues := none }] wLabels).toOption = some false := by decide
 
+/-- **a NodeClaim built from a NodePool is stamped with the hash of the template it is built from**: inside
+    `NewNodeClaimTemplate` the only expression assigned to the `karpenter.sh/nodepool-hash` annotation is `Hash()` of the
+    NodePool passed in (not, e.g., the NodePool's own annotation, which lags behind the template until the hash controller
+    has reconciled an edit), and the only hash version is the current one — what `Karp.Drift.stampOf` models. -/
+theorem fact_claim_stamped_with_template_hash :
+    Karp.Gen.C15Drift.claimHashStamps = [Karp.Gen.C15Drift.claimTemplateParam ++ ".Hash()"] ∧
+    Karp.Gen.C15Drift.claimHashVersionStamps = ["v1.NodePoolHashVersion"] := by decide
+
 /-! ## Drift: the sub-reconciler -/
 
 /-- **C15_reconcile_reports** — on a launched NodeClaim, `Drift.Reconcile` sets the Drifted condition whenever the hash
@@ -538,6 +546,89 @@ theorem C15_launch_labels_satisfy_partial (sels : List Sel) (templateLabels reso
           have := hdefined s hs hm
           simp [h1, h2, h3] at this
 
+/-! ## NodeClaims created in mid-history (the provisioner runs at any point relative to the hash controller) -/
+
+/-- **C15_create_stamps_template** — a NodeClaim the provisioner creates from the stored NodePool carries the hash of the
+    template it is built from and the current hash version, has no Drifted condition, and leaves the NodePool untouched —
+    whatever the NodePool's own annotations say at that moment (absent, stale after an edit, tampered with). -/
+theorem C15_create_stamps_template (s s' : St) (n : String) (resolved providerLabels : Karp.Drift.Labels) (launched : Bool)
+    (h : createClaim s n resolved providerLabels launched = .ok s') (hp : s.pool.present = true)
+    (hnew : s.claims.any (·.name == n) = false) :
+    ∃ c, s'.claims = s.claims ++ [c] ∧ c.name = n ∧ c.ann = stampOf s.pool.pool ∧ c.drifted = none ∧ s'.pool = s.pool := by
+  unfold createClaim at h
+  simp only [hp, hnew, Bool.not_true, Bool.or_self, Bool.false_eq_true, if_false] at h
+  cases hr : s.pool.pool.template.nodeClassRef with
+  | none => rw [hr] at h; simp at h
+  | some r =>
+    rw [hr] at h
+    simp only at h
+    cases hb : buildReqs (s.pool.pool.template.requirements.getD []) with
+    | error x => rw [hb] at h; simp [bind, Except.bind] at h
+    | ok R =>
+      rw [hb] at h
+      simp only [bind, Except.bind, pure, Except.pure] at h
+      injection h with h; subst h
+      exact ⟨_, rfl, rfl, rfl, rfl, rfl⟩
+
+/-- the stamp does not depend on the NodePool's annotations -/
+theorem C15_stamp_ignores_annotation (p : Pool) : stampOf p = { hash := some p.hashString, version := some currentVersion } := rfl
+
+/-- **C15_created_claim_keeps_template_stamp** (invariant over ALL histories) — start in any state without a NodeClaim
+    named `n`.  Along every history, of any length, of steps that neither edit the NodePool's spec nor overwrite a
+    NodeClaim's annotations — creations (of `n` and of others), hash-controller runs (hash-version migrations included),
+    disruption-controller reconciles, label / Launched / provider / clock changes, tampering with the NodePool's own
+    annotations — every NodeClaim named `n` carries, in every state, the hash of the NodePool's current template under
+    the current hash version. -/
+theorem C15_created_claim_keeps_template_stamp (s : St) (n : String) (steps : List Step) (out : List (St × Bool))
+    (hnew : ∀ c ∈ s.claims, c.name ≠ n) (hq : ∀ st ∈ steps, keepsStamp st = true) (hrun : run s steps = .ok out) :
+    ∀ p ∈ out, ∀ c ∈ p.1.claims, c.name = n → c.ann = stampOf p.1.pool.pool :=
+  tracks_run n steps s (fun c hc hn => absurd hn (hnew c hc)) hq out hrun
+
+/-- **C15_created_claim_never_self_drifted** (invariant over ALL timely histories) — along every such history in which,
+    moreover, the disruption controller reconciles only while the NodePool's annotation is up to date with its template
+    (i.e. the hash controller has run since the last edit — `C15_hash_controller_stamps`) and the provider never answers
+    with the reason `NodePoolDrifted`, no NodeClaim named `n` is ever reported `NodePoolDrifted`: a NodeClaim created
+    between a template edit and the hash controller's next run is not drifted by that edit. -/
+theorem C15_created_claim_never_self_drifted (s : St) (n : String) (steps : List Step) (out : List (St × Bool))
+    (hnew : ∀ c ∈ s.claims, c.name ≠ n) (hq : timelyRun s steps = true) (hrun : run s steps = .ok out) :
+    ∀ p ∈ out, ∀ c ∈ p.1.claims, c.name = n →
+      c.ann = stampOf p.1.pool.pool ∧ c.drifted ≠ some Karp.Gen.C15Drift.reasonNodePoolDrifted :=
+  calm_run n steps s (fun c hc hn => absurd hn (hnew c hc)) hq out hrun
+
+/-- the hash controller brings the NodePool's annotation up to date: the hypothesis of `timely` holds after it ran -/
+theorem C15_hash_controller_makes_timely (s : St) (hp : s.pool.present = true) (hm : s.poolManaged = true) :
+    (hashReconcile s).pool.ann = stampOf (hashReconcile s).pool.pool := by
+  obtain ⟨h1, h2⟩ := C15_hash_controller_stamps s hp hm
+  rw [h1, h2]; rfl
+
+/-- **C15_stale_window_transient** (what the hypothesis `timely` excludes; the standing assumption of manifest/C15.json,
+    here as a fact of the model, replayed on the real controllers: corpus `c15.drift/006`) — while the NodePool's
+    annotation is behind its template, `areStaticFieldsDrifted` compares the hash of a NodeClaim created from the NEW
+    template with the annotation of the OLD one: the NodePool was stamped when its template said team=a, the template
+    now says team=b, the hash controller has not run yet; a NodeClaim created now and reconciled right away is reported
+    `NodePoolDrifted` — transiently: not (second part) once the hash controller has run first.  In that window the two
+    clauses of the property contradict each other (the hash does differ from the NodePool's annotation under the same
+    hash version), so the specification gives no verdict there. -/
+def wStaleTemplate : Template :=
+  { labels := some [("team", "b")], nodeClassRef := some wRef,
+    requirements := some [{ key := "example.com/n", op := .gt, values := ["2"], minValues := none }] }
+def wStale : St :=
+  { pool := { name := "pool-a", pool := { template := wStaleTemplate },
+              ann := { hash := some ({ template := { wStaleTemplate with labels := some [("team", "a")] } } : Pool).hashString,
+                       version := some currentVersion } },
+    claims := [], prov := { its := [{ name := "it-a", offerings := [[]] }] },
+    nodeClass := ("karpenter.test.sh", "TestNodeClass") }
+def wProviderLabels : Karp.Drift.Labels := [("node.kubernetes.io/instance-type", "it-a"), ("topology.kubernetes.io/zone", "z1")]
+/-- an outcome of the `Any()` calls: a value for the bounded custom key, and the single values of the label keys -/
+def wResolved (n : String) : Karp.Drift.Labels :=
+  [("example.com/n", n), ("team", "b"), ("karpenter.test.sh/testnodeclass", "default")]
+
+theorem C15_stale_window_transient :
+    (run wStale [.create "new-0" (wResolved "7") wProviderLabels true, .reconcile "new-0"]).toOption.map
+      (fun out => out.map (fun p => p.1.claims.map (·.drifted))) = some [[none], [some "NodePoolDrifted"]] ∧
+    (run wStale [.create "new-0" (wResolved "7") wProviderLabels true, .hashctl, .reconcile "new-0"]).toOption.map
+      (fun out => out.map (fun p => p.1.claims.map (·.drifted))) = some [[none], [none], [none]] := by decide
+
 /-! ## Non-vacuity -/
 
 def wTaint2 : Taint := { key := "gpu", value := "true", effect := "NoExecute" }
@@ -623,5 +714,15 @@ example : Settled wState :=
 /-- the migration theorem's hypotheses: an un-drifted NodeClaim with an old hash version -/
 example : staticDrifted { hash := some "new", version := some currentVersion }
     (migrateClaim "new" { name := "nc", labels := [], ann := { hash := some "old", version := some "v2" } }).ann = false := by decide
+
+/-- the hypotheses of `C15_created_claim_never_self_drifted` on the interleaving "NodePool stamped → template edited →
+    NodeClaim created → hash controller → reconcile": the history is timely, and the name is new -/
+example : timelyRun wStale [.create "new-0" (wResolved "7") wProviderLabels true, .hashctl, .reconcile "new-0", .advance 1,
+    .create "new-1" (wResolved "3") wProviderLabels true, .reconcile "new-1"] = true := by decide
+example : ∀ c ∈ wStale.claims, c.name ≠ "new-0" := by intro c hc; cases hc
+/-- … and the `Any()` outcome used there is one the relation allows, the created labels satisfy the NodePool's requirement -/
+example : (templateReqs (wStaleTemplate.requirements.getD []) (templateLabels "pool-a" wStaleTemplate wRef)).toOption.map
+    (fun R => resolvedAllowed Karp.Gen.Labels.wellKnownLabels R (wResolved "7") &&
+              !resolvedAllowed Karp.Gen.Labels.wellKnownLabels R (wResolved "2")) = some true := by decide
 
 end Karp.C15
